@@ -14,6 +14,12 @@ INITIALLY_MISSED = {  # seeded change -> what the check lacked (strengthening do
  "C21-3": "depth-2 histories on one root (op1, in-place env.d rewrite, op2) added to C21",
  "C23-4": "real interpolating observers (file_handle_output / formatter_output) and format-special path names ('%', '{', backslash) through the real engine dispatch added to C23",
  "C25-3": "write histories (same on-disk tree written 2-3 times in one process, every archive judged) added to C25",
+ "C24-3": "operation histories on one ContentsFile (open/create, add/remove/replace-at-same-path, flush, fresh read-back) added to C24",
+ "C24-4": "line-break look-alike characters (U+2028, U+2029, U+0085, VT, FF, FS/GS/RS) added to the C24 path/target alphabet",
+ "C27-3": "second-generation follow-up store (shorter/same/longer entry, same process) after every fault plan added to C27",
+ "C27-4": "store/delete histories on one key with entries sharing _chf_ but differing in values/eclass data added to C27",
+ "C28-3": "histories on one Manifest object (read, same-size change, update, read again; Manifest mtime pinned) added to C28",
+ "C28-4": "non-ASCII AUX/MISC/DIST names + stricter idempotence oracle (returns False, inode/mtime_ns/size unchanged) added to C28",
  "C03-1": "glob atoms with explicit -r0/-r0N revisions + wider match universe added to C03",
  "C03-2": "multi-flag USE lists with a default on a non-last flag added to C03",
  "C04-2": "atom slot form with sub-slot equal to slot (:0/0) added to C04 quick",
